@@ -270,3 +270,117 @@ def walk_decision(sc, start, atom_value, target_blocks, maxsteps=200):
             continue
         return None
     return None
+
+
+# --------------------------------------------------------------------------- boolean predicates over finite-domain atoms
+
+class Atoms:
+    """assignment of finite-domain atoms: field suffix -> value (bool or enum variant name); enums: field suffix -> variant list"""
+
+    def __init__(self, values, enums):
+        self.values = values
+        self.enums = enums
+
+    def field_of(self, n):
+        nm = leaf_name(strip(n)) or ""
+        for f in self.values:
+            if nm.endswith("." + f) or nm == f:
+                return f
+        return None
+
+    def value(self, n):
+        """switch-value string of node n under this assignment, or None"""
+        n = strip(n)
+        if n[0] == "un" and n[1] == "Not":
+            v = self.value(n[2])
+            return None if v is None else ("0" if v == "1" else "1")
+        f = self.field_of(n)
+        if f is not None and isinstance(self.values[f], bool):
+            return "1" if self.values[f] else "0"
+        if n[0] == "discr":
+            f = self.field_of(n[1])
+            if f is not None and f in self.enums:
+                return str(self.enums[f].index(self.values[f]))
+        if n[0] == "call" and short_callee(n[1]) in ("eq", "ne") and len(n[2]) == 2:
+            a, b = strip(n[2][0]), strip(n[2][1])
+            for x, y in ((a, b), (b, a)):
+                f = self.field_of(x)
+                if f is not None and y[0] == "agg" and "::" in y[1]:
+                    res = self.values[f] == y[1].split("::")[-1]
+                    if short_callee(n[1]) == "ne":
+                        res = not res
+                    return "1" if res else "0"
+                if f is not None and y[0] == "k" and isinstance(self.values[f], bool):
+                    res = self.values[f] == (y[1] == "true")
+                    return "1" if res else "0"
+        if n[0] == "call" and short_callee(n[1]) in ("is_some", "is_none") and n[2]:
+            f = self.field_of(n[2][0])
+            if f is not None and isinstance(self.values[f], bool):
+                res = self.values[f] if short_callee(n[1]) == "is_some" else not self.values[f]
+                return "1" if res else "0"
+        if n[0] == "k" and n[1] in ("true", "false"):
+            return "1" if n[1] == "true" else "0"
+        return None
+
+
+def eval_predicate(sc, atoms, maxsteps=80):
+    """evaluate a bool-returning body (closure) under an atom assignment by walking its CFG. -> True / False / ('stuck', text)"""
+    body = sc.body
+    b = 0
+    result = None
+    for _ in range(maxsteps):
+        for s in body.blocks[b]["st"]:
+            if s["s"] == "assign" and s["p"] == 0:
+                v = atoms.value(sc.rvalue(s["rv"]))
+                if v is None:
+                    return ("stuck", show(sc.rvalue(s["rv"]))[:120])
+                result = v == "1"
+        t = body.blocks[b]["term"]
+        k = t["t"]
+        if k == "return":
+            return result if result is not None else ("stuck", "no value")
+        if k == "goto":
+            b = t["to"]
+            continue
+        if k == "switch":
+            v = atoms.value(sc.operand(t["d"]))
+            if v is None:
+                return ("stuck", show(sc.operand(t["d"]))[:120])
+            nxt = None
+            for val, tg in t["arms"]:
+                if val == v:
+                    nxt = tg
+            b = nxt if nxt is not None else t["else"]
+            continue
+        if k == "call":
+            if t["dest"] == 0:
+                v = atoms.value(sc._rw(sc.eb.call_node(t, b)))
+                if v is None:
+                    return ("stuck", show(sc._rw(sc.eb.call_node(t, b)))[:120])
+                result = v == "1"
+            elif isinstance(t["dest"], int):
+                # a temporary holding a comparison: resolved lazily through the expression builder when switched on
+                pass
+            if "to" not in t:
+                return ("stuck", "diverges")
+            b = t["to"]
+            continue
+        if k in ("drop", "assert"):
+            b = t["to"]
+            continue
+        return ("stuck", k)
+    return ("stuck", "too long")
+
+
+def predicate_table(sc, fields, enums):
+    """truth table of a predicate body over the product of the atoms' domains: {assignment tuple: bool}"""
+    import itertools
+    names = list(fields)
+    doms = []
+    for f in names:
+        doms.append(enums[f] if f in enums else [True, False])
+    out = {}
+    for combo in itertools.product(*doms):
+        at = Atoms(dict(zip(names, combo)), enums)
+        out[combo] = eval_predicate(sc, at)
+    return names, out
